@@ -249,6 +249,32 @@ pub fn check_history_keep(opsv: &[Op], keep: usize, mut st: Option<&mut Stats>) 
                 env_invariants(&env, &live).map_err(|e| v(format!("after {}: {}", what, e)))?;
             }
         }
+        // node_list(): every entry is the environment's own node, and the distinct entries are
+        // exactly the reachable nodes (leaves included)
+        for (j, h) in pool.iter().enumerate() {
+            if !alive[j] || j % 4 != 0 {
+                continue;
+            }
+            let listed = h.node_list();
+            let reach = plain::reachable(h);
+            let nodes = env.nodes.borrow();
+            let mut distinct = std::collections::HashSet::new();
+            for n in &listed {
+                match nodes.get(n.as_ref()) {
+                    Some(e) if Rc::ptr_eq(e, n) => {}
+                    _ => return Err(v(format!("node_list of handle {} contains a node that is not the environment's shared node", j))),
+                }
+                distinct.insert(Rc::as_ptr(n));
+            }
+            if distinct.len() != reach.len() {
+                return Err(v(format!(
+                    "node_list of handle {} has {} distinct nodes, {} are reachable",
+                    j,
+                    distinct.len(),
+                    reach.len()
+                )));
+            }
+        }
         // (e) exported node identities are consistent for every handle
         for (j, h) in pool.iter().enumerate() {
             if alive[j] && (j % 3 == 0 || j + 1 == pool.len()) {
